@@ -105,10 +105,20 @@ static void sub_sdd_bp(const std::string &sub) {
     for (long idx = 0; idx < N; ++idx) {
         if (!vf::selected(sub, idx)) continue;
         uint64_t cs = vf::case_seed(sub, idx * 16 + w.size); Rng r(cs); vfm::seed_delays(cs, w.rank);
-        Problem p = make_problem(r, 200, (int)vf::tier(700, 1200)); long n = p.A.n;
+        Problem p = make_problem(r, 200, (int)vf::tier(700, 1200));
+        // every third case: structurally NON-symmetric convection-diffusion (not an SPD M-matrix: no convergence clause, a Krylov breakdown is not a
+        // failure; termination, rank-consistency and the truthful-residual clause stay).  Either pure upwind convection across the cuts (one-sided
+        // coupling between the slabs of different ranks: receive-neighbours != send-neighbours) or vf::convdiff with randomly deleted partners.
+        const bool nonsym = idx % 3 == 2; bool line_cuts = false; int gnx = 0, gny = 0;
+        if (nonsym) { gnx = (int)r.range(8, 24); gny = (int)r.range(std::max(6, 2 * w.size), std::max(12, 3 * w.size) + 8);
+            if (r.coin(0.6)) { p.A = oneway_convection(gnx, gny, r.uni(0.5, 3.0), r.uni(0.0, 0.3), r); p.family = "G3-oneway-upwind"; line_cuts = true; }
+            else { p.A = vf::convdiff(gnx, gny, r.uni(0.5, 4.0), r, true); p.family = "G3-convdiff-struct-nonsym"; line_cuts = r.coin(); }
+            p.f = vf::random_vector(p.A.n, r); p.x0.assign(p.A.n, 0.0); }
+        long n = p.A.n;
         // every rank owns rows here: a sub-domain without unknowns has no local problem to precondition / deflate (stated in the rule)
         Part rp = vfm::random_part(n, w.size, r, 1, r.coin() ? 0 : 1); { bool ok = true; for (int k = 0; k < w.size; ++k) if (rp[k + 1] - rp[k] < 2) ok = false; if (!ok) rp = vfm::random_part(n, w.size, r, 1, 0); }
-        std::string sv = IS[r.range(0, 6)], lp, ds = DIRECT[r.range(0, 1)]; int ndv = sdd ? (int)r.range(1, 2) : 0; size_t maxiter = 500; double tol = 1e-8;
+        if (line_cuts) for (int k = 0; k <= w.size; ++k) rp[k] = (ptrdiff_t)((long)gny * k / w.size) * gnx;      // cuts between grid lines
+        std::string sv = IS[nonsym ? r.range(1, 6) : r.range(0, 6)], lp, ds = DIRECT[r.range(0, 1)]; int ndv = sdd ? (int)r.range(1, 2) : 0; size_t maxiter = 500; double tol = 1e-8;
         ptree prm; std::function<double(ptrdiff_t, unsigned)> dv; ptrdiff_t nl = rp[w.rank + 1] - rp[w.rank];
         if (sdd) { local_precond(prm, "local.", r, lp); prm.put("isolver.type", sv); prm.put("isolver.maxiter", maxiter); prm.put("isolver.tol", tol); prm.put("dsolver.type", ds);
             dv = [nl](ptrdiff_t i, unsigned j) { return j == 0 ? 1.0 : (2.0 * i - nl) / (nl + 1.0); }; prm.put("num_def_vec", ndv); prm.put("def_vec", &dv); }
@@ -120,14 +130,14 @@ static void sub_sdd_bp(const std::string &sub) {
         SolveOut o;
         try { if (sdd) { SDD slv(comm, std::tie(nloc, S.ptr, S.col, S.val), prm); std::tie(o.iters, o.res) = slv(f, x); }
               else { BPSolver slv(comm, std::tie(nloc, S.ptr, S.col, S.val), prm); std::tie(o.iters, o.res) = slv(f, x); } }
-        catch (const std::exception &e) { o.threw = true; c.fail("exception:" + tag, e.what()); }
+        catch (const std::exception &e) { o.threw = true; if (nonsym) vf::obs_sum("nonsym_exceptions_not_counted"); else c.fail("exception:" + tag, e.what()); }
         bool same = check_rank_consistent(c, tag, o);
         int t = o.threw, gt = 0; MPI_Allreduce(&t, &gt, 1, MPI_INT, MPI_MAX, w.comm); if (gt) continue;
         std::vector<double> gx = allgather_vec(x.data(), rp);
         if (w.rank) continue;
-        double kappa = kappa_spd(p.A);
+        double kappa = nonsym ? kappa_svd(p.A) : kappa_spd(p.A);
         // sdd: the iteration runs on the projected system and the result is post-processed; every reported value goes through the coarse (deflation) solve, so the recursive-residual rule (conditioning of the call) is used for all solvers
-        TruthSpec ts; ts.solver = sdd ? "cg" : sv; ts.maxiter = maxiter; ts.tol = tol; ts.kappa = kappa; ts.must_converge = true;
+        TruthSpec ts; ts.solver = sdd ? "cg" : sv; ts.maxiter = maxiter; ts.tol = tol; ts.kappa = kappa; ts.must_converge = !nonsym; if (nonsym) { ts.solver = "cg"; vf::obs_sum(sub + "_nonsym_solves"); if (std::isfinite(o.res) && o.res < tol) vf::obs_sum(sub + "_nonsym_converged"); }
         if (same) { SolveOut oo = o; check_truth(c, tag, p.A, p.f, gx, x0, oo, ts); }
         c.nontrivial(); vf::obs_sum(sub + "_solves"); vf::obs_add(sub + "_cells_covered", cellname);
         vf::sample(sub + "_r" + std::to_string(w.size), J().n("ranks", w.size).s("cell", cellname).s("family", p.family).n("n", n).s("rows", vfm::part_str(rp)).n("iters", o.iters).n("res", o.res), 1);
